@@ -1,0 +1,23 @@
+//go:build verif
+
+package server
+
+import "sync/atomic"
+
+// Schedule points for the verification harness in /verif. They are no-ops unless the binary is
+// built with -tags verif AND a callback has been registered.
+var verifHook atomic.Value // func(point string)
+
+// SetVerifHook registers (or, with nil, removes) the schedule-point callback.
+func SetVerifHook(f func(point string)) {
+	if f == nil {
+		f = func(string) {}
+	}
+	verifHook.Store(f)
+}
+
+func vhook(point string) {
+	if f, ok := verifHook.Load().(func(string)); ok {
+		f(point)
+	}
+}
